@@ -8,12 +8,15 @@ Laws / MC   : TarRoundTrip_Laws (Read(Write(s)) ~ Expected(s) for EVERY in-domai
               and without directories first; Resolve idempotent, nothing left below a link; empty archive)
               and TarRoundTrip_MC (writer and reader as processes over the member sequence, all orders:
               the reader's name->inode cache never misses, result ~ Expected, reader == ReadArchive; the
-              "nolink" writer must violate RoundTrip — vacuity guard).
+              "nolink" writer and the writer keying its table by inode NUMBER only ("inokey") must violate
+              RoundTrip — vacuity guards).
 spec -> code: TarRoundTrip_Export: (a) in-domain subsets of the pool are BUILT ON DISK (hard links, symlinks,
               fifos, owners, mtimes), written with the real write_set / add_contents_to_tarfile and read with
               generate_contents / convert_archive; (b) member sequences of a foreign writer (any order, hard
               link stars and chains x->y->z) rendered with the stdlib tarfile and read by the real reader.
-code -> spec: seeded random trees (hard link groups, symlink chains, entries named through symlinked
+              Files carry the device / inode number the set states (fsFile dev/inode): groups on several
+              devices whose inode numbers collide; such sets are run in both set orders.
+code -> spec: seeded random trees (hard link groups on up to three devices with colliding numbers, symlink chains, entries named through symlinked
               directories, fifos, devices, awkward names, big ids, sub-second mtimes), bzip2 / plain (xz only
               for reading foreign archives: writing at xz -9 costs seconds per archive);
               archives without members (written from the empty set; a compressed zero-length stream).
@@ -51,7 +54,7 @@ TYPES = {"dir", "file", "sym", "fifo", "dev"}
 
 def blank(path, typ):
     return dict(path=list(path), type=typ, mode=0o644, uid=0, gid=0, msec=1400000000, musec=0, target="", tabs=False,
-                tcomps=[], cid=0, major=0, minor=0, devkind="-", ino=0)
+                tcomps=[], cid=0, major=0, minor=0, devkind="-", dev=0, ino=0)
 
 
 class CaseTimeout(BaseException):
@@ -103,7 +106,9 @@ def split_mtime(m):
 
 def project(cset, cids, structure=None):
     """pkgcore fs objects -> abstract entries (shared by both directions)."""
-    inos, out = {}, []
+    # dev / ino: small ints for the device and for the inode NUMBER (numbers that collide across devices
+    # keep colliding); identity of an inode is the pair, as in the specification
+    devs, inos, out = {}, {}, []
     for o in cset:
         e = blank([c for c in o.location.split("/") if c], "?")
         e["mode"] = stat.S_IMODE(o.mode)
@@ -113,8 +118,9 @@ def project(cset, cids, structure=None):
             e["type"] = "file"
             with o.data.bytes_fileobj() as f:
                 e["cid"] = cids.cid(f.read())
-            key = (o.dev, o.inode)
-            e["ino"] = 0 if None in key else inos.setdefault(key, len(inos) + 1)
+            if None not in (o.dev, o.inode):
+                e["dev"] = devs.setdefault(o.dev, len(devs) + 1)
+                e["ino"] = inos.setdefault(o.inode, len(inos) + 1)
         elif o.is_dir:
             e["type"] = "dir"
         elif o.is_sym:
@@ -154,16 +160,21 @@ class Builder:
             t = e["type"]
             over = {}
             if t == "file":
-                if e["ino"] and e["ino"] in first:
-                    os.link(first[e["ino"]], phys)
+                grp = (e["dev"], e["ino"])
+                if e["ino"] and grp in first:
+                    os.link(first[grp], phys)
                 else:
                     with open(phys, "wb") as f:
                         f.write(self.cids.data(e["cid"]))
                     if e["ino"]:
-                        first[e["ino"]] = phys
+                        first[grp] = phys
                 over = dict(chksum_handlers=size_only)
                 if not e["ino"]:
                     over.update(inode=None, dev=None)
+                else:
+                    # the entry's device / inode NUMBER as the set states them (a contents set may span
+                    # several filesystems of the build host: inode numbers are unique per device only)
+                    over.update(dev=0x800 + e["dev"], inode=4000 + e["ino"])
             elif t == "dir":
                 os.mkdir(phys)
             elif t == "sym":
@@ -341,17 +352,19 @@ def rand_tree(r_):
         if p and len(p) <= 3:
             ents[p] = attrs(r_, blank(p, "dir"))
             dirs.append(p)
-    # files in hard link groups
-    ino = 0
+    # files in hard link groups; groups live on up to three devices and draw their inode numbers from a
+    # small range, so that numbers collide ACROSS devices (never within one)
+    grid = [(dv, nr) for dv in (1, 2, 3) for nr in (1, 2, 3)]
+    r_.shuffle(grid)
     for _ in range(r_.randint(0, 4)):
-        ino += 1
+        dev, ino = grid.pop()
         cid = r_.randint(1, 30)
         proto = attrs(r_, blank((), "file"))
         noino = r_.random() < 0.12
         for _ in range(r_.choice([1, 1, 2, 3, 4])):
             p = fresh(r_.choice(dirs))
             if p:
-                e = dict(proto, path=list(p), cid=cid, ino=0 if noino else ino)
+                e = dict(proto, path=list(p), cid=cid, dev=0 if noino else dev, ino=0 if noino else ino)
                 if noino:  # separate inodes: own attributes
                     e = attrs(r_, e)
                 ents[p] = e
@@ -401,8 +414,8 @@ def rand_tree(r_):
                 g = r_.choice(grp)
                 e = dict(g, path=list(p))
             else:
-                ino += 1
-                e["cid"], e["ino"] = r_.randint(1, 30), ino
+                e["cid"] = r_.randint(1, 30)
+                e["dev"], e["ino"] = grid.pop()
         elif kind == "sym":
             e["tabs"], e["tcomps"], e["target"] = False, ["..", "z"], "../z"
             links.append(p)
@@ -430,10 +443,12 @@ def features(ents):
     paths = {tuple(e["path"]) for e in ents}
     syms = {tuple(e["path"]) for e in ents if e["type"] == "sym"}
     below = sorted(p for p in paths if any(p[:k] in syms for k in range(1, len(p))))
+    inodes = [(e["dev"], e["ino"]) for e in ents if e["type"] == "file" and e["ino"]]
     f = dict(devices=any(e["type"] == "dev" for e in ents), below_link=len(below),
              no_inode_files=sum(1 for e in ents if e["type"] == "file" and not e["ino"]),
-             hardlinks=len({e["ino"] for e in ents if e["type"] == "file" and e["ino"]}) <
-             sum(1 for e in ents if e["type"] == "file" and e["ino"]))
+             hardlinks=len(set(inodes)) < len(inodes),
+             # the same inode number in use on different devices
+             ino_collision=len({i for _d, i in set(inodes)}) < len(set(inodes)))
     return f
 
 
@@ -481,22 +496,33 @@ def run(ck):
     nmc = ck.pick(3, 4)
     ck.mc("TarRoundTrip_MC", cfg_text=mc_cfg.format(v="link", n=nmc), workers=ck.pick(2, 4), timeout=ck.pick(200, 840),
           label=f"MC:TarRoundTrip_MC link MaxEntries={nmc}")
-    bad = ck.mc("TarRoundTrip_MC", cfg_text=mc_cfg.format(v="nolink", n=2), workers=2, timeout=300, expect_ok=False,
-                label="MC:TarRoundTrip_MC nolink (must violate)")
-    if bad.violated != "RoundTrip":
-        raise tlc.MachineryError(f"TarRoundTrip_MC: the writer without link members no longer violates RoundTrip ({bad.violated})")
+    for variant, n in (("nolink", 2), ("inokey", 3)):
+        guard_cfg = mc_cfg.format(v=variant, n=n) + ("CONSTRAINT SecondDevicePair\n" if variant == "inokey" else "")
+        bad = ck.mc("TarRoundTrip_MC", cfg_text=guard_cfg, workers=2, timeout=300, expect_ok=False,
+                    label=f"MC:TarRoundTrip_MC {variant} (must violate)")
+        if bad.violated != "RoundTrip":
+            raise tlc.MachineryError(f"TarRoundTrip_MC: the '{variant}' writer no longer violates RoundTrip ({bad.violated})")
 
     # 2. spec -> code
     cases = ck.export("TarRoundTrip_Export", timeout=ck.pick(200, 840), label="Laws+Export:TarRoundTrip_Laws/_Export",
-                      cfg_text=f"CONSTANTS\n MaxLaw = {ck.pick(3, 5)}\n MaxExp = {ck.pick(3, 4)}\n MaxArch = {ck.pick(3, 4)}\n")
+                      cfg_text=f"CONSTANTS\n MaxLaw = {ck.pick(3, 4)}\n MaxExp = {ck.pick(3, 4)}\n MaxArch = {ck.pick(3, 4)}\n")
     sets = sorted((c for c in cases if c["kind"] == "set"), key=lambda c: repr(c["ents"]))
     archs = sorted((c for c in cases if c["kind"] == "arch"), key=lambda c: repr(c["members"]))
     r_ = rng(25)
+    def _both(c):
+        f = features(c["ents"])
+        return f["ino_collision"] and f["hardlinks"]
+
     if ck.quick:
-        sets = r_.sample(sets, min(len(sets), 200))
+        # stratified: every set with a hard link group AND an inode number shared across devices is kept
+        must = [c for c in sets if _both(c)]
+        rest = [c for c in sets if not _both(c)]
+        sets = must + r_.sample(rest, min(len(rest), max(0, 170 - 2 * len(must))))
         archs = r_.sample(archs, min(len(archs), 80))
     else:
         ck.exhaustive = True
+    # which device the writer meets first is a matter of set order: those sets are run in both orders
+    sets = sets + [dict(c, ents=list(reversed(c["ents"]))) for c in sets if _both(c)]
     tid = 0
     for n, c in enumerate(sets):
         comp = "bz2" if n % 4 else "plain"
@@ -527,7 +553,7 @@ def run(ck):
         tid += 1
 
     # 4. code -> spec
-    for n in range(ck.pick(300, 3000)):
+    for n in range(ck.pick(260, 3000)):
         ents = rand_tree(r_)
         comp = ("bz2", "bz2", "plain")[n % 3]
         f = features(ents)
@@ -535,6 +561,8 @@ def run(ck):
         add(tr.roundtrip(tid, builder, ents, comp), case)
         if f["hardlinks"] or f["below_link"] or f["devices"]:
             ck.nontriv(("rnd", n))
+        if f["hardlinks"] and f["ino_collision"]:
+            ck.extra["cases_with_colliding_inode_numbers"] = ck.extra.get("cases_with_colliding_inode_numbers", 0) + 1
         if n == 0:
             ck.sample(dict(direction="code->spec", ents=[(e["path"], e["type"], e["ino"], e["target"]) for e in ents]))
         tid += 1
@@ -555,13 +583,13 @@ def _judge(ck, events, meta):
             case = meta[v["tid"]]
             d = dict(case=case, op=case["op"], comp=case.get("comp"), how=case.get("how", ""), raised=ev.get("raised", ""),
                      got_paths=sorted("/".join(e["path"]) for e in ev.get("got", [])))
-            for f in ("devices", "below_link", "no_inode_files", "hardlinks", "chain"):
+            for f in ("devices", "below_link", "no_inode_files", "hardlinks", "ino_collision", "chain"):
                 if f in case:
                     d[f] = case[f]
             ck.violation(v["clause"], d)
             if os.environ.get("VERIF_DEBUG"):
                 print("DEBUG", v["clause"], d["op"], d["comp"], d["how"], d["raised"][:60],
-                      {f: d[f] for f in ("devices", "below_link", "no_inode_files", "hardlinks", "chain") if f in d})
+                      {f: d[f] for f in ("devices", "below_link", "no_inode_files", "hardlinks", "ino_collision", "chain") if f in d})
     ck.extra["unspecified_inputs"] = unspec
     if unspec > 0.4 * len(events):
         raise tlc.MachineryError(f"{unspec} of {len(events)} generated inputs are outside the property's domain")
